@@ -259,7 +259,7 @@ def alphabet(rng, n_base):
     # exactly the calls a piece of hidden state keyed by too little would confuse with S<k>
     for k in range(n_base):
         base_c = cases["S%d" % k]
-        for kind in ("p", "l", "q")[: (3 if k < 2 else 1 + k % 2)]:
+        for kind in ("p", "l", "q")[: (3 if k < 2 else 1 + k % 2)] + (("s", "m") if k < 4 else ()):
             v = neighbour(base_c, kind, rng)
             if v is not None:
                 cases["S%d%s" % (k, kind)] = v
@@ -298,6 +298,20 @@ def neighbour(c, kind, rng):
         v["q0"] = np.flipud(c["q0"]) * 1.5 + 0.25
         v["meas_pt"] = (c["meas_pt"][0] + 0.25 * c["domain"][0] / c["q0"].shape[1], c["meas_pt"][1])
         v["bg"] = c["bg"] + 0.5
+        return v
+    if kind == "s":  # same padded extent, smaller interior (source cropped by one cell, halo one cell wider): dispersion only
+        if c["footprint"]:
+            return None
+        try:
+            return sc.sibling(rng, c, "interior-shrink")
+        except Exception:
+            return None
+    if kind == "m":  # fewer retained modes on the same padded geometry (run after the full-spectrum call)
+        ny, nx = c["q0"].shape
+        small = (2, 2)
+        if tuple(c["modes"]) == small:
+            return None
+        v["modes"] = small
         return v
     raise ValueError(kind)
 
